@@ -641,7 +641,7 @@ def gen_sidx(rng, kind):
 
 class C09(vlib.Spec):
     prop = "C09"
-    lean_modules = ["Banyan.Props.C09", "Banyan.Tie.C09"]
+    lean_modules = ["Banyan.Props.C09", "Banyan.Props.C09b", "Banyan.Props.C09c", "Banyan.Tie.C09"]
     theorems = []   # filled below
     go_driver = "c09"
     lean_driver = "C09"
@@ -1014,9 +1014,13 @@ PROPS = [
     "strictWeak_qrLt_ts", "qrMerge_spec", "measure_pull_sorted", "measure_query_sorted",
     # stream row-path limit over pages, trace multi-instance merge
     "limitLoop_eq", "stream_limit_window", "trace_stream_merge_sorted", "traceMergeStreams_flatten",
+    # getDisjointParts, time-ordered stream scan, measure index-mode ordered query
+    "groupParts_spec", "disjoint_groups_spec", "stream_ts_query_sorted", "stream_ts_query_legacy_counterexample",
+    "strictWeak_kvLt", "dropSeen_spec", "index_sort_query_spec",
 ]
 TIES = ["scanner_batch_tie", "max_block_length_tie", "less_by_key_tie", "threshold_shape_tie", "drain_shape_tie",
-        "trace_batch_tie", "trace_direction_shape_tie", "stream_limit_shape_tie"]
+        "trace_batch_tie", "trace_direction_shape_tie", "stream_limit_shape_tie",
+        "disjoint_boundary_shape_tie", "seg_result_remove_shape_tie"]
 SPEC = C09()
 SPEC.theorems = ["Banyan.C09." + t for t in PROPS] + ["Banyan.Tie.C09." + t for t in TIES]
 
